@@ -282,6 +282,18 @@ func writeSizes(f fileIn) []int {
 	rem := total - first
 	switch f.Kind {
 	case "bytes", "seek":
+		if f.Kind == "seek" && f.Seeker == "section" {
+			// io.SectionReader has no WriteTo: io.Copy moves it through its 32 KiB buffer
+			for rem > 0 {
+				n := 32768
+				if rem < n {
+					n = rem
+				}
+				ns = append(ns, n)
+				rem -= n
+			}
+			return ns
+		}
 		if first == total {
 			// Read returned (n, nil); io.Copy then finds EOF
 			return ns
